@@ -11,6 +11,8 @@
  *                           (e.g. which equivalent entropy decoder variant runs)
  *   ZSTD_verif_indexJump(): number of bytes by which the match-finder index of a
  *                           continuing context is advanced at the start of a frame
+ *   ZSTD_verif_stall(site): a point where a thread may be descheduled for a long time
+ *                           (the simulator decides whether this passage is, and for how long)
  */
 #ifndef ZSTD_VERIF_H
 #define ZSTD_VERIF_H
@@ -45,6 +47,12 @@ enum {
     ZSTD_VC_count
 };
 
+enum {
+    ZSTD_VS_mtJobStart = 1,              /* ZSTDMT_compressionJob : a worker picked the job, nothing done yet */
+    ZSTD_VS_mtAfterSerial,               /* ZSTDMT_compressionJob : serial (LDM / checksum) step done, compression not started */
+    ZSTD_VS_count
+};
+
 #ifdef ZSTD_VERIF_SIM
 # if defined (__cplusplus)
 extern "C" {
@@ -53,16 +61,19 @@ void     ZSTD_verif_probe(int id);
 void     ZSTD_verif_probe_val(int id, size_t value);   /* probe carrying one measurement */
 int      ZSTD_verif_coin(int site);
 unsigned ZSTD_verif_indexJump(void);
+void     ZSTD_verif_stall(int site);
 # if defined (__cplusplus)
 }
 # endif
 # define ZSTD_VERIF_PROBE(id)  ZSTD_verif_probe(id)
 # define ZSTD_VERIF_PROBE_VAL(id, v) ZSTD_verif_probe_val((id), (size_t)(v))
 # define ZSTD_VERIF_COIN(site) ZSTD_verif_coin(site)
+# define ZSTD_VERIF_STALL(site) ZSTD_verif_stall(site)
 #else
 # define ZSTD_VERIF_PROBE(id)  ((void)0)
 # define ZSTD_VERIF_PROBE_VAL(id, v) ((void)0)
 # define ZSTD_VERIF_COIN(site) (0)
+# define ZSTD_VERIF_STALL(site) ((void)0)
 #endif
 
 #endif /* ZSTD_VERIF_H */
